@@ -21,6 +21,7 @@ type SpecCtx struct {
 	RTypes   []types.Type
 	RNames   []string
 	UseLocals bool // resolve plain names to the current value of the local of that name (loop invariants)
+	ParamsFirst bool // postconditions: parameter names mean entry values; other names fall back to locals
 	Frame    *Frame
 	Bound    map[string]*SV
 	InOld    bool
@@ -189,7 +190,7 @@ func (e *Engine) evalIdent(s *State, c *SpecCtx, name string) *SV {
 				return e.svOf(c.Results[i], c.RTypes[i])
 			}
 		}
-		if name == "err" {
+		if _, isParam := c.Params[name]; name == "err" && !isParam {
 			for i := len(c.RTypes) - 1; i >= 0; i-- {
 				if types.TypeString(c.RTypes[i], nil) == "error" {
 					return e.svOf(c.Results[i], c.RTypes[i])
@@ -198,6 +199,11 @@ func (e *Engine) evalIdent(s *State, c *SpecCtx, name string) *SV {
 		}
 	}
 	// current locals (loop invariants, own-function context)
+	if c.ParamsFirst {
+		if v, ok := c.Params[name]; ok {
+			return e.svOf(v, c.PTypes[name])
+		}
+	}
 	if c.UseLocals && c.Frame != nil && !c.InOld {
 		if sv := e.localByName(s, c, name); sv != nil {
 			return sv
@@ -227,6 +233,17 @@ func (e *Engine) evalIdent(s *State, c *SpecCtx, name string) *SV {
 	}
 	if g, ok := s.Ghost[name]; ok {
 		return svInt(g)
+	}
+	// a local of the function that is not live on this path (or not visible from a caller): the
+	// clause does not apply here
+	if c.Fn != nil {
+		for _, b := range c.Fn.Blocks {
+			for _, in := range b.Instrs {
+				if al, ok := in.(*ssa.Alloc); ok && al.Comment == name {
+					panic(clauseNotApplicable{name})
+				}
+			}
+		}
 	}
 	e.unsupportedf("spec identifier %q not resolvable in %s", name, c.Fn)
 	return nil
@@ -269,7 +286,7 @@ func (e *Engine) specLoad(s *State, c *SpecCtx, a *Addr) *Val {
 		case ACell:
 			name, sortS = "C!"+typeKey(a.T)+l.Path, "(Array Int "+l.Sort+")"
 		case AGlobal:
-			name, sortS = "G!"+sanitize(a.Glob.String())+l.Path, l.Sort
+			name, sortS = "G!"+sanitize(a.Glob.String())+sanitize(a.Path)+l.Path, l.Sort
 		}
 		h := e.oldHeap(s, c, name, sortS)
 		switch a.K {
@@ -462,6 +479,7 @@ var ghostHeaps = map[string]string{
 	"clen":    "Int",
 	"ccap":    "Int",
 	"consumed": "Int", // bytes taken from an io.Reader
+	"atype":    "Int", // type id of a (mutable) TApplicationException
 }
 
 func (e *Engine) evalCall(s *State, c *SpecCtx, n *ast.CallExpr) *SV {
@@ -535,8 +553,61 @@ func (e *Engine) evalCall(s *State, c *SpecCtx, n *ast.CallExpr) *SV {
 			return svBool(fmt.Sprintf("(forall ((%s Int)) %s)", q, implies(rng, body)))
 		}
 		return svBool(fmt.Sprintf("(exists ((%s Int)) %s)", q, and(rng, body)))
-	case "ttype", "atype":
+	case "ttype":
 		return svInt(app(fname, arg(0).V.L[0]))
+	case "ncalls":
+		// ncalls("callee key"): number of calls to that callee on this path (trace ghost)
+		lit := n.Args[0].(*ast.BasicLit)
+		name, _ := strconv.Unquote(lit.Value)
+		cnt := 0
+		for _, ev := range s.Trace {
+			if ev.Kind == "call" && ev.What == name {
+				cnt++
+			}
+		}
+		return svInt(num(int64(cnt)))
+	case "callret":
+		// callret("callee key", k, i): i-th result of the k-th call to that callee on this path
+		lit := n.Args[0].(*ast.BasicLit)
+		name, _ := strconv.Unquote(lit.Value)
+		k, _ := strconv.Atoi(n.Args[1].(*ast.BasicLit).Value)
+		ai, _ := strconv.Atoi(n.Args[2].(*ast.BasicLit).Value)
+		cnt := 0
+		for _, ev := range s.Trace {
+			if ev.Kind == "call" && ev.What == name {
+				if cnt == k && ai < len(ev.Rets) {
+					if ai < len(ev.RetTypes) && ev.RetTypes[ai] != nil {
+						return e.svOf(ev.Rets[ai], ev.RetTypes[ai])
+					}
+					return &SV{V: ev.Rets[ai], Sort: map[bool]string{true: "Int", false: ""}[len(ev.Rets[ai].L) == 1]}
+				}
+				cnt++
+			}
+		}
+		panic(clauseNotApplicable{"callret " + name})
+	case "callarg":
+		// callarg("callee key", k, i): i-th argument (receiver = 0) of the k-th call to that callee on this path
+		lit := n.Args[0].(*ast.BasicLit)
+		name, _ := strconv.Unquote(lit.Value)
+		k, _ := strconv.Atoi(n.Args[1].(*ast.BasicLit).Value)
+		ai, _ := strconv.Atoi(n.Args[2].(*ast.BasicLit).Value)
+		cnt := 0
+		for _, ev := range s.Trace {
+			if ev.Kind == "call" && ev.What == name {
+				if cnt == k && ai < len(ev.Args) {
+					if ai < len(ev.ArgTypes) && ev.ArgTypes[ai] != nil {
+						return e.svOf(ev.Args[ai], ev.ArgTypes[ai])
+					}
+					if len(ev.Args[ai].L) == 1 {
+						return &SV{V: ev.Args[ai], Sort: "Int"}
+					}
+					return &SV{V: ev.Args[ai]}
+				}
+				cnt++
+			}
+		}
+		// no such call on this path: the clause says nothing here
+		panic(clauseNotApplicable{"callarg " + name})
 	case "fresh":
 		a := arg(0)
 		al := e.oldHeap(s, c, "Alloc", "(Array Int Bool)")
@@ -627,4 +698,22 @@ func (e *Engine) typeTagByName(name string) string {
 	e.typeTags[name] = len(e.typeTags) + 1
 	e.tagTypes = append(e.tagTypes, nil)
 	return num(int64(e.typeTags[name]))
+}
+
+type clauseNotApplicable struct{ name string }
+
+// tryEvalBool evaluates a clause; ok is false when the clause mentions a local that is not live here.
+func (e *Engine) tryEvalBool(s *State, c *SpecCtx, x ast.Expr) (t string, ok bool) {
+	nl := len(s.Lines)
+	defer func() {
+		if r := recover(); r != nil {
+			if _, isNA := r.(clauseNotApplicable); isNA {
+				s.Lines = s.Lines[:nl]
+				t, ok = "true", false
+				return
+			}
+			panic(r)
+		}
+	}()
+	return e.evalBool(s, c, x), true
 }
